@@ -291,8 +291,15 @@ def explore(case, opts, rng, stats):
                 complete = True
                 break
             if st != "sat":
-                reason = "coverage query " + st
-                break
+                # fallback for non-linear path conditions: when every path branches on the same comparison terms, decide
+                # each unexplored sign vector on its own (a conjunction is far easier for nlsat than the big disjunction)
+                st, pt = _signvector_fallback(paths, sigs, extra, opts, stats)
+                if st == "unsat":
+                    complete = True
+                    break
+                if st != "sat":
+                    reason = "coverage query " + st
+                    break
             base = dict(paths[-1].model) if paths else {}
             base.update(pt)
             model = _perturb(base, pt, neg_paths, rng)
@@ -332,6 +339,32 @@ def explore(case, opts, rng, stats):
             reason = "path budget (%d) exhausted" % opts.max_paths
             break
     return paths, complete, reason
+
+
+def _signvector_fallback(paths, sigs, extra, opts, stats):
+    import itertools
+    good = [p for p in paths if not p.error]
+    if not good:
+        return "unknown", None
+    ids = [sorted(d.id for d, r in p.pc if r in (">", "<")) for p in good]
+    if any(i != ids[0] for i in ids) or not ids[0] or len(ids[0]) > 10:
+        return "unknown", None
+    if any(r not in (">", "<") for p in good for d, r in p.pc):
+        return "unknown", None
+    nodes = {d.id: d for d, r in good[0].pc}
+    order = ids[0]
+    unknown = False
+    for signs in itertools.product("><", repeat=len(order)):
+        sig = frozenset(zip(order, signs))
+        if sig in sigs:
+            continue
+        st, pt, _ = lw.find_model([(nodes[i], r) for i, r in zip(order, signs)] + list(extra), timeout_ms=opts.timeout_ms)
+        stats["coverage_queries"] += 1
+        if st == "sat":
+            return "sat", pt
+        if st != "unsat":
+            unknown = True
+    return ("unknown" if unknown else "unsat"), None
 
 
 def _perturb(base, pt, neg_paths, rng):
